@@ -241,7 +241,7 @@ func newWorld(tag string) (*world, error) {
 		// with no delay the OFFERS event can be handled before acquireTasks listens for the verdict
 		// of resourceOffers; the core then drops the verdict (non-blocking send) and acquireTasks
 		// waits for ever holding deployMu (C02's subject, not C01's): every later deployment blocks
-		OfferDelay: 4 * time.Millisecond,
+		OfferDelay: 20 * time.Millisecond,
 	})
 	if err != nil {
 		return nil, err
